@@ -130,7 +130,7 @@ Lemma dtramp_S : forall f p args env st d, dtramp (S f) p args env st d =
                     dod (vs, st3, d3) <- deval_args f aes last_env st2 d2 ;;
                     match first with
                     | VProcU _ _ _ _ | VProcB _ => dtramp f first vs env st3 d3
-                    | _ => (err TypeMisMatch, st3, d3)
+                    | _ => (lerr TypeMisMatch (eloc fe), st3, d3)
                     end
                 end
             | _ => (Panic PUnmodelled, st, d)
